@@ -490,7 +490,10 @@ def make_input(case):
     O = build(case["object"])
     S = build(case["species"])
     m = {O & o: S & s for o, s in case["map"].items()}
-    syn = {O & o: list(v) for o, v in case["syn"].items()}
+    # a synteny may be given as any sequence of family names: a list, a tuple, or a string of one-letter names
+    as_ = case.get("syn_as", "list")
+    conv = {"list": list, "tuple": tuple, "str": lambda v: "".join(v) if all(len(f) == 1 for f in v) else tuple(v)}[as_]
+    syn = {O & o: conv(v) for o, v in case["syn"].items()}
     cv = case.get("costs", [0, 1, 1, 1, 1])
     costs = {
         NodeEvent.SPECIATION: cv[0], NodeEvent.DUPLICATION: cv[1],
@@ -590,6 +593,12 @@ def _random_input_case(rng, osh, ssh, fams="abc", costs=None):
         k = rng.randint(1, len(fams))
         syn[o] = "".join(sorted(rng.sample(fams, k)))
     c = {"object": obj, "species": spe, "map": mp, "syn": syn}
+    if rng.random() < 0.4:
+        # leaf syntenies as tuples / strings, in one common order that is NOT the alphabetical one
+        perm = list(fams)
+        rng.shuffle(perm)
+        c["syn"] = {o: "".join(f for f in perm if f in v) for o, v in syn.items()}
+        c["syn_as"] = rng.choice(["tuple", "str", "list"])
     if costs is not None:
         c["costs"] = costs
     return c
